@@ -56,6 +56,10 @@ func ParseMediaType(s string) (MediaType, error) {
 		return MediaType{}, errors.New("invalid media type")
 	}
 
+	if values[0] == "" || values[1] == "" {
+		return MediaType{}, errors.New("invalid media type: type and subtype are required")
+	}
+
 	return MediaType{values[0], values[1], suffix}, nil
 }
 
